@@ -134,6 +134,49 @@ def run_parametrised(rep, rng, n):
                 if back != t:
                     rep.property_failure(case, f"{k}: its printed name {str(t)!r} does not resolve back to an equal type")
                     break
+    # categories: the native dtype and the directly constructed type are one type, in whatever order the natives are resolved
+    # (an unordered categorical compares equal to its permutations as a *pandas* dtype; pandera keeps the order)
+    base_cats = ["a", "b", "c"]
+    import itertools as _it
+    for perm in list(_it.permutations(base_cats))[:4]:
+        for ordered in (False, True):
+            case = {"engine": "pandas", "spellings": f"Category({list(perm)}, ordered={ordered})"}
+            rep.evaluations += 1
+            rep.count("parametrised:category-spellings")
+            try:
+                t_native = pe.Engine.dtype(pd.CategoricalDtype(list(perm), ordered=ordered))
+                t_direct = pe.Category(categories=list(perm), ordered=ordered)
+            except Exception as e:  # noqa: BLE001
+                rep.property_failure(case, f"category spelling does not resolve: {type(e).__name__}: {str(e)[:80]}")
+                continue
+            if t_native != t_direct or hash(t_native) != hash(t_direct) or list(t_native.categories) != list(perm):
+                rep.property_failure(case, f"Engine.dtype(CategoricalDtype({list(perm)})) gives categories "
+                                           f"{list(t_native.categories)}: not equal / equally hashed to Category({list(perm)})")
+    # polars temporal types: a type recognises only its own kind, with and without time_zone_agnostic
+    try:
+        import polars as pl_
+        from pandera.engines import polars_engine as ple
+        temporal = {}
+        for u in ("ns", "us", "ms"):
+            temporal[f"Datetime[{u}]"] = ("datetime", ple.DateTime(time_unit=u))
+            temporal[f"Datetime[{u},agnostic]"] = ("datetime", ple.DateTime(time_unit=u, time_zone_agnostic=True))
+            temporal[f"Datetime[{u},UTC]"] = ("datetime", ple.DateTime(time_unit=u, time_zone="UTC"))
+            temporal[f"Duration[{u}]"] = ("timedelta", ple.Engine.dtype(pl_.Duration(u)))
+        temporal["Date"] = ("date", ple.Engine.dtype(pl_.Date))
+        temporal["Time"] = ("time", ple.Engine.dtype(pl_.Time))
+        for (n1, (k1, t1)), (n2, (k2, t2)) in _it.product(temporal.items(), repeat=2):
+            rep.evaluations += 1
+            rep.count("parametrised:polars-temporal-pairs")
+            try:
+                rec = bool(t1.check(t2))
+            except Exception:  # noqa: BLE001
+                continue
+            if rec and k1 != k2:
+                rep.property_failure({"engine": "polars", "pair": [n1, n2]}, f"polars: {n1} recognises {n2}, a type of another kind")
+            if n1 == n2 and not rec:
+                rep.property_failure({"engine": "polars", "pair": [n1, n2]}, f"polars: {n1} does not recognise itself")
+    except ImportError:
+        pass
     # decimal spellings across the engines: every 0 <= scale <= precision resolves
     for p_, sc_ in ((4, 4), (4, 0), (10, 2), (1, 1), (18, 18)):
         spellings = {}
